@@ -51,13 +51,18 @@ def fam_soup(ctx, rng):
             jb = tuple(c + rng.uniform(-j, j) for c in b) if rng.random() < 0.5 else b
             segs.append((ja, jb))
     rng.shuffle(segs)
+    far = rng.random() < 0.3
+    if far:
+        # the same soup far from the origin (coordinates up to 1e4, the spacing of the points unchanged)
+        off = tuple(float(rng.choice([-1, 1]) * rng.randint(2000, 9000)) for _ in range(3 if d3 else 2))
+        segs = [(tuple(c + o for c, o in zip(a, off)), tuple(c + o for c, o in zip(b, off))) for a, b in segs]
     if d3:
         objs = [LineSegment3D.from_end_points(P3(a), P3(b)) for a, b in segs]
         res = Polyline3D.join_segments(objs, TOL)
     else:
         objs = [LineSegment2D.from_end_points(P2(a), P2(b)) for a, b in segs]
         res = Polyline2D.join_segments(objs, TOL)
-    desc = {'segments': segs, '3d': d3, 'chains': [(len(p), c) for p, c in chains]}
+    desc = {'segments': segs, '3d': d3, 'chains': [(len(p), c) for p, c in chains], 'far_from_origin': far}
     ctx.count('soup.%s' % ('3d' if d3 else '2d'), key=(nchains, tuple(sorted((len(p), c) for p, c in chains))), sample=desc,
               nontrivial=len(segs) > 1)
     kind = 'join_segments:%s' % ('3d' if d3 else '2d')
@@ -143,19 +148,28 @@ def fam_tiling(ctx, rng):
     if len(rects) < 2:
         return
     polys = []
+    far = rng.random() < 0.3
+    if far:
+        # the same tiling far from the origin (unit cells at coordinates up to 1e4)
+        ox, oy = rng.choice([-1, 1]) * rng.randint(2000, 9000), rng.choice([-1, 1]) * rng.randint(2000, 9000)
+        cells = {(i + ox, j + oy) for i, j in cells}
+        rects = [(x0 + ox, y0 + oy, x1 + ox, y1 + oy) for (x0, y0, x1, y1) in rects]
+    # long thin tiles: the x direction stretched by K (a 1 x K tile is K times longer than wide; tolerance stays 0.01)
+    K = 1.0 if far else float(rng.choice([1, 1, 1, 150, 400]))      # coordinates stay within 1e4
     for (x0, y0, x1, y1) in rects:
-        pts = [(float(x0), float(y0)), (float(x1), float(y0)), (float(x1), float(y1)), (float(x0), float(y1))]
+        pts = [(K * x0, float(y0)), (K * x1, float(y0)), (K * x1, float(y1)), (K * x0, float(y1))]
         if rng.random() < 0.5: pts = pts[::-1]
         k = rng.randrange(4); pts = pts[k:] + pts[:k]
         polys.append(Polygon2D([P2(p) for p in pts]))
     xs = [c[0] for c in cells]; ys = [c[1] for c in cells]
     box = (min(xs) - 1, min(ys) - 1, max(xs) + 2, max(ys) + 2)
-    desc = {'rectangles': rects, 'shape': mode}
+    desc = {'rectangles': rects, 'shape': mode, 'x_stretch': K}
     ctx.count('tiling.' + mode, key=(len(cells), len(rects)), sample=desc)
     which = rng.choice(['polygon', 'face'])
     try:
         if which == 'polygon':
             res = Polygon2D.joined_intersected_boundary(polys, TOL)
+            res = [Polygon2D([P2((v.x / K, v.y)) for v in p_.vertices]) for p_ in res]
             got = region_cells(res, box)
         else:
             pl = Plane(V3((0.0, 0.0, 1.0)), P3((0.0, 0.0, 2.0)))
@@ -163,9 +177,9 @@ def fam_tiling(ctx, rng):
             out = Face3D.join_coplanar_faces(faces, TOL)
             loops = []
             for f in out:
-                loops.append(Polygon2D([P2((v.x, v.y)) for v in f.boundary]))
+                loops.append(Polygon2D([P2((v.x / K, v.y)) for v in f.boundary]))
                 for h in (f.holes or ()):
-                    loops.append(Polygon2D([P2((v.x, v.y)) for v in h]))
+                    loops.append(Polygon2D([P2((v.x / K, v.y)) for v in h]))
             got = region_cells(loops, box)
     except Exception as e:
         ctx.violation('outline.%s:%s:raises' % (which, mode), '%r' % (e,), desc); return
@@ -179,7 +193,7 @@ def fam_tiling(ctx, rng):
         if not X.is_simple(f):
             ctx.violation('outline.%s:%s:self_crossing' % (which, mode), 'a returned outline loop is not a simple polygon', desc); return
     if which == 'face':
-        tot = sum(f.area for f in out)
+        tot = sum(f.area for f in out) / K
         if abs(tot - len(cells)) > 1e-6 * len(cells):
             ctx.violation('outline.%s:%s:area' % (which, mode), 'joined faces have area %r, the tiles cover %d' % (tot, len(cells)), desc); return
     else:
